@@ -29,5 +29,11 @@ CLAIMED = {
         'values/representation bytes equal the specification; equality, raw __hash__ and dictionary collisions follow the hashes.',
    note='Trusted: z3; SHA-256 collision-freeness (as an axiom, instantiated pairwise per path); specs/cellspec.py; the bitarray model '
         '(validated per path witness against the real library, where the real SHA-256 is used). DAG shapes outside the family are not covered.'),
+ 'C02': dict(
+   text='Bounded symbolic execution of the real exotic-cell code against the level-recursive specification: every pruned-branch mask 1..7 '
+        'in 11 nesting shapes (up to three nested Merkle proofs, Merkle updates, gap masks through siblings, library cells), three '
+        'construction routes, with the stored hashes and depths symbolic; and pruning invariance on four trees with every antichain of '
+        'pruned subtrees, alone and under a Merkle proof root.',
+   note='Trusted: z3; SHA-256 collision-freeness axiom; specs/cellspec.py; the shape grammar bounds (<= 3 Merkle levels, <= 6 cells).'),
 }
 NOT_APPLICABLE = {}
